@@ -52,6 +52,39 @@ def main():
     n_own = sum(1 for (name, prop, change, needs, caught, missed, sigs, conf) in rows if prop in caught)
     out.append("%d of %d seeded changes are caught by at least one check, %d of them (also) by the check of the property they were written for; see section 9.3 for what was changed in the machinery after a miss, and for the one change no check catches." % (n_ok, len(rows), n_own))
     out.append("")
+    # ---- section 11: behaviour-preserving refactorings ----
+    rd = os.path.join(ROOT, "refactors")
+    NOTES_R = {
+        "RF1-R1": "the three intrusive lists become wrappers over one head-and-tail chain; the buffer of possible roots becomes a FIFO (was LIFO): tracing, finalizer and destructor order inside a garbage set changes",
+        "RF1-R2": "tracing counters reset eagerly (creation, leaving root tracing, unwinding) instead of lazily; counting and root tracing each become a single loop; the finalization fold is split into a scan and a run; pass cap 10 -> 6",
+        "RF2-R1": "the two packed u16 words become one u32 with a different bit layout, marks re-encoded, finalized flag stored inverted; weak counter re-laid out; CcBox header fields reordered; Cc::drop split into helpers",
+        "RF2-R2": "fully unpacked header (one field per piece of information, no reserved counter value), CcBoxHeader struct; header grows from 36 to 40 bytes (box sizes of small payloads change)",
+        "RF3-R1": "the four state flags become one bit set with a single restoring guard type; try_unwrap / finalize_again use one is_idle() check; allocated_bytes becomes the difference of two running totals",
+        "RF3-R2": "byte threshold stored as a doubling count over an initial value of 128 (was 100); should_collect / adjust become pure functions of a sampled load; CONFIG thread-local merged into the state thread-local",
+        "RF4-R1": "weak side record redesigned (holders = Weaks + 1 while the box is attached, flag unpacked, fields reordered, new module); new_cyclic no longer builds a transient Cc; upgrade / strong_count share one live_target()",
+        "RF4-R2": "the cleaner's SlotMap replaced by a vector sorted by a never-reused ticket; remaining actions run newest-first at Cleaner drop; UnsafeCell<Option<Cc<..>>> becomes OnceCell",
+    }
+    if os.path.isdir(rd):
+        out.append("---------------------------------------------------------------------------------------------------")
+        out.append("")
+        out.append("## 11. Behaviour-preserving refactorings and the checks run against them (false-alarm side)")
+        out.append("")
+        out.append("Written by four further sub-agents that were given the 20 property statements and the contract of the read-only hooks (nothing else from")
+        out.append("`/verif`) and asked for *substantial* refactorings of the crate's internals that keep every property and the public behaviour intact")
+        out.append("(`refactors/<id>/{patch.diff, author_notes.md, result.txt}`; each passes the pinned tests). The quick tier of the checks most exposed to")
+        out.append("the refactored area was run against each refactored tree (`VERIF_REPO`, `lib/refq.sh`): every one must exit 0 without a VIOLATION line.")
+        out.append("")
+        out.append("| id | refactoring | checks run (quick tier) | alarms |")
+        out.append("|---|---|---|---|")
+        for name in sorted(os.listdir(rd)):
+            rp = os.path.join(rd, name, "result.txt")
+            if not os.path.exists(rp):
+                continue
+            lines = open(rp).read().splitlines()
+            ran = [l.split(":")[0] for l in lines if re.match(r"^C\d+: exit", l)]
+            bad = [l.split(":")[0] for l in lines if re.match(r"^C\d+: exit", l) and not re.match(r"^C\d+: exit 0 0 violation", l)]
+            out.append("| %s | %s | %s | %s |" % (name, NOTES_R.get(name, ""), ", ".join(ran) or "-", ", ".join(bad) or "none"))
+        out.append("")
     text = "\n".join(out)
     p = os.path.join(ROOT, "DESIGN.md")
     s = open(p).read()
